@@ -102,3 +102,10 @@ U("c13_manifest_query_frame", ["C13", "C05"], "h_manifest_frame", ["C13/manifest
   functions=["mmd_engine_transclusion_manifest", "d_string_new", "d_string_free", "stack_new", "stack_free"],
   callees={"mmd_transclude_source": "by contract (enforced in c13_rec_*): may rewrite the DString it is given, pushes on the manifest it is given"},
   min_obligations=10, timeout=300, cost=10, assumptions=[NOFAIL])
+
+# ---- scan_file: a file that exists is read whole; empty != missing
+U("c13_scan_file_reads_whole", ["C13", "C06"], "h_scan_file", ["C13/scan_file.c"], ["file.c"], plain=True, lib=("lib/ds_sink.c",), kind="bounded",
+  defines=["-DFLMAX=5", "-DSINK_CAP=12"], cbmc_flags=["--unwind", "14", "--unwinding-assertions"], bounds={"file length<=": 5, "chunking": "any", "unwind": 14},
+  functions=["scan_file"],
+  callees={"fopen, fread, fclose": "contract stubs over a ghost file (any chunking)", "d_string_*": "executable specification lib/ds_sink.c (C19; the real d_string_append_c_array under a symbolic length from a 4096-byte chunk ran out of memory)", "strncmp": "CBMC built-in"},
+  min_obligations=10, timeout=300, cost=20, assumptions=[NOFAIL, "POSIX branch of scan_file (the build's configuration)"])
